@@ -29,6 +29,17 @@
 //     method on the same value are NOT assumed to behave the same way (the object may have state). A
 //     buffer/reader handed to a method is returned as its new value: an arbitrary function of the old
 //     content (nothing says that the method only appends). Such calls inside loops are rejected.
+//     An interface value handed to an opaque function is handed as that structure (the function may call its fields
+//     with any index: nothing ties what it sees to what the translated function saw).
+//   - a value of a CONCRETE named type stored in a slot of such an interface type — `t = payload(x)`, `var m I = v`,
+//     an argument of a translated / opaque function whose parameter has the interface type — becomes the structure
+//     built from the TRANSLATED methods of the concrete type, `<pkg>.<T>.as_<ipkg>_<I> x` (iface.go; the methods
+//     become targets by themselves). The call-site index is ignored there: rejected unless no method writes through
+//     its receiver; also rejected: a pointer stored in the interface, a method that is opaque / promoted / needs
+//     fuel or an Ext structure, an interface value stored in a slot of a different interface type.
+//   - `switch x { case a, b: … }` is an if-chain over `x == a || x == b` (no fallthrough / break), on strings too.
+//   - a method behind an embedded field is called by writing the path out (`f.EFIFS.WriteVar(…)`: a field selection);
+//     a call of a promoted method through the implicit path (`f.SetFS(…)`) is rejected.
 //   - an interface-typed *result* is represented by the concrete value that the function stores in it (all
 //     `return`s must store the same concrete type; `nil` is its zero value — callers look at the error).
 //   - a named type defined as bytes.Buffer (`type efibytes bytes.Buffer`) is a reader/writer like
@@ -171,6 +182,7 @@ type fnDecl struct {
 	out      string // Lean source
 	deps     []string
 	err      string
+	synthetic bool // a generated definition without a Go declaration (`T.as_I`, iface.go)
 }
 
 var (
@@ -1200,6 +1212,7 @@ func (t *fnTrans) call(c *ast.CallExpr) string {
 	if fd == nil {
 		fail(c, "call of a function that is not a translation target")
 	}
+	t.checkRecvPath(c)
 	if fd.opaque {
 		if fd.effectful() {
 			fail(c, "call of the opaque function %s, which changes an argument, inside an expression", fd.leanName)
@@ -1209,15 +1222,15 @@ func (t *fnTrans) call(c *ast.CallExpr) string {
 		if recv != nil {
 			parts = append(parts, t.expr(recv))
 		}
-		for _, a := range c.Args {
-			parts = append(parts, t.expr(a))
+		for i := range c.Args {
+			parts = append(parts, t.argExpr(c, i))
 		}
 		return "(" + strings.Join(parts, " ") + ")"
 	}
 	if fd.effectful() {
 		fail(c, "call of the effectful function %s inside an expression", fd.leanName)
 	}
-	return t.callPure(fd, recv, c.Args)
+	return t.callPure(fd, recv, c)
 }
 
 // extField: the name of the field for the opaque function fd in the Ext structure of package `home`
@@ -1277,7 +1290,7 @@ func addExtField(home string, fd *fnDecl) {
 	extFields[home] = append(extFields[home], fd)
 }
 
-func (t *fnTrans) callPure(fd *fnDecl, recv ast.Expr, args []ast.Expr) string {
+func (t *fnTrans) callPure(fd *fnDecl, recv ast.Expr, c *ast.CallExpr) string {
 	t.deps[fd.leanName] = true
 	parts := []string{fd.leanName}
 	if fd.usesFuel {
@@ -1297,8 +1310,8 @@ func (t *fnTrans) callPure(fd *fnDecl, recv ast.Expr, args []ast.Expr) string {
 	if recv != nil {
 		parts = append(parts, t.expr(recv))
 	}
-	for _, a := range args {
-		parts = append(parts, t.expr(a))
+	for i := range c.Args {
+		parts = append(parts, t.argExpr(c, i))
 	}
 	return "(" + strings.Join(parts, " ") + ")"
 }
@@ -1519,7 +1532,7 @@ func (t *fnTrans) block(stmts []ast.Stmt, c ctx) string {
 				o := t.pi.info.Defs[id]
 				var v string
 				if i < len(vs.Values) {
-					v = t.expr(vs.Values[i])
+					v = t.coerce(vs.Values[i], o.Type(), vs.Values[i])
 				} else {
 					v = t.zero(s, o.Type())
 				}
@@ -1765,7 +1778,7 @@ func (t *fnTrans) assignStmt(x *ast.AssignStmt) string {
 		for _, r := range x.Rhs {
 			tmp := t.fresh("r")
 			tmps = append(tmps, tmp)
-			fmt.Fprintf(&b, "let %s := %s\n", tmp, t.rhs(r))
+			fmt.Fprintf(&b, "let %s := %s\n", tmp, t.rhsFor(x.Lhs[len(tmps)-1], r))
 		}
 		for i, l := range x.Lhs {
 			b.WriteString(t.assign(x, l, tmps[i]))
@@ -1782,13 +1795,20 @@ func (t *fnTrans) rhs(r ast.Expr) string {
 	return t.expr(r)
 }
 
-// rhsFor: `nil` takes the zero value of the target's type
+// rhsFor: `nil` takes the zero value of the target's type; a concrete value assigned to a variable of a library
+// interface type becomes the structure of its translated methods (iface.go)
 func (t *fnTrans) rhsFor(lhs, r ast.Expr) string {
 	if t.isNil(r) {
 		if id, ok := lhs.(*ast.Ident); !ok || id.Name != "_" {
 			if _, isSlice := t.typeOf(lhs).Underlying().(*types.Slice); isSlice {
 				return "[]"
 			}
+		}
+		return t.rhs(r)
+	}
+	if id, ok := lhs.(*ast.Ident); !ok || id.Name != "_" {
+		if lt := typeOfIn(t.pi.info, lhs); lt != nil {
+			return t.coerce(r, lt, r)
 		}
 	}
 	return t.rhs(r)
@@ -2668,50 +2688,66 @@ func addHelperTargets() {
 						fo, _ = fd.pi.info.Uses[f.Sel].(*types.Func)
 					}
 				}
-				if fo == nil || fo.Pkg() == nil || byObj[fo.FullName()] != nil {
-					return true
-				}
-				pi := byTypes[fo.Pkg().Path()]
-				if pi == nil {
-					return true
-				}
-				// find the declaration by name and receiver in that package
-				for _, file := range pi.files {
-					for _, d := range file.Decls {
-						fdcl, ok := d.(*ast.FuncDecl)
-						if !ok || fdcl.Body == nil || fdcl.Name.Name != fo.Name() {
-							continue
-						}
-						obj, ok := pi.info.Defs[fdcl.Name].(*types.Func)
-						if !ok || obj.FullName() != fo.FullName() {
-							continue
-						}
-						rn := ""
-						if fdcl.Recv != nil {
-							switch rt := fdcl.Recv.List[0].Type.(type) {
-							case *ast.StarExpr:
-								if id, ok := rt.X.(*ast.Ident); ok {
-									rn = id.Name
-								}
-							case *ast.Ident:
-								rn = rt.Name
-							}
-						}
-						nm := pi.short + "."
-						if rn != "" {
-							nm += rn + "."
-						}
-						nm += fdcl.Name.Name
-						nfd := &fnDecl{key: fnKey{pi.dir, rn, fdcl.Name.Name}, pi: pi, decl: fdcl, obj: obj, leanName: nm}
-						targets = append(targets, nfd)
-						byObj[obj.FullName()] = nfd
-						changed = true
-					}
+				if addFuncTarget(fo) {
+					changed = true
 				}
 				return true
 			})
+			// the methods of a concrete type whose values the function stores in a library-interface slot (iface.go)
+			for _, fo := range boxedMethods(fd.pi.info, fd.decl.Body) {
+				if addFuncTarget(fo) {
+					changed = true
+				}
+			}
 		}
 	}
+}
+
+// addFuncTarget: the function fo of a loaded package becomes a target (false: it is one already, or it has no
+// declaration with a body in a loaded package)
+func addFuncTarget(fo *types.Func) bool {
+	if fo == nil || fo.Pkg() == nil || byObj[fo.FullName()] != nil {
+		return false
+	}
+	pi := byTypes[fo.Pkg().Path()]
+	if pi == nil {
+		return false
+	}
+	added := false
+	// find the declaration by name and receiver in that package
+	for _, file := range pi.files {
+		for _, d := range file.Decls {
+			fdcl, ok := d.(*ast.FuncDecl)
+			if !ok || fdcl.Body == nil || fdcl.Name.Name != fo.Name() {
+				continue
+			}
+			obj, ok := pi.info.Defs[fdcl.Name].(*types.Func)
+			if !ok || obj.FullName() != fo.FullName() {
+				continue
+			}
+			rn := ""
+			if fdcl.Recv != nil {
+				switch rt := fdcl.Recv.List[0].Type.(type) {
+				case *ast.StarExpr:
+					if id, ok := rt.X.(*ast.Ident); ok {
+						rn = id.Name
+					}
+				case *ast.Ident:
+					rn = rt.Name
+				}
+			}
+			nm := pi.short + "."
+			if rn != "" {
+				nm += rn + "."
+			}
+			nm += fdcl.Name.Name
+			nfd := &fnDecl{key: fnKey{pi.dir, rn, fdcl.Name.Name}, pi: pi, decl: fdcl, obj: obj, leanName: nm}
+			targets = append(targets, nfd)
+			byObj[obj.FullName()] = nfd
+			added = true
+		}
+	}
+	return added
 }
 
 // extStructs: one `<pkg>.Ext` structure per package with opaque targets (functions that are not translated:
